@@ -26,6 +26,10 @@ CHECKS = {
    text='DashTiming executed on a fully symbolic calendar instant (year..microsecond are solver variables, calendar arithmetic relational), symbolic depth and explicit start; coherence obligations as SMT validity queries on every path; monotonicity by a one-day-window induction step',
    note='now in 1971..2200 UTC; minimumUpdatePeriod from a concrete catalogue (it divides a symbolic value); reference (segment_duration, timescale) from the layout catalogue; float total_seconds() modelled as exact rational with error bound',
    ref='DESIGN.md 5 C08'),
+ 'C14': dict(
+   text='RepeatingEventBase.create_emsg_boxes / create_manifest_context executed for one arbitrary segment (symbolic start and duration) against an arbitrary schedule (symbolic start, count, event duration); the emitted ids must equal the scheduled ids inside the converted segment interval - an inductive step that covers every run of gapless segments; SCTE-35 encode/parse round trip over a bit-level model with CRC as an uninterpreted function',
+   note='interval and the two timescales from small concrete catalogues (they multiply/divide symbolic values); at most 6 events per segment (unwinding assertion); moof/representation are stand-ins',
+   ref='DESIGN.md 5 C14'),
  'C19': dict(
    text='toIsoDuration / from_isodatetime / to_iso_datetime executed on symbolic values: durations N/den with N a solver variable (floats as exact rationals with rounding-error bounds), date-times with symbolic calendar fields, microsecond and UTC offset, text as token strings through the repository own regular expressions; timecode conversions as integer obligations',
    note='durations are rationals N/den for a catalogue of denominators, x <= 1e7 s, tolerance 0.5 ms + 4 ns; the millisecond field is concretised (1001-way bisection) because the code inspects its digits; tc.inv tolerance max(1 tick, 1 us)',
